@@ -76,6 +76,74 @@ macro_rules! world {
     }};
 }
 
+
+/// the frame written through the encrypting writer of its direction and read back through the peer's decrypting
+/// reader, both of the first enabled flavour (only with the `encryption` feature)
+macro_rules! world_enc {
+    ($Msg:ty, $srp:ident, $writer:ident, $we:ident, $twe:ident, $awe:ident, $bytes:expr) => {{
+        #[cfg(all(feature = "encryption", any(feature = "sync", feature = "tokio", feature = "async-std")))]
+        {
+            let bytes: &[u8] = $bytes;
+            let mut r0 = bytes;
+            #[cfg(feature = "sync")]
+            let plain = <$Msg>::read_unencrypted(&mut r0);
+            #[cfg(all(not(feature = "sync"), feature = "tokio"))]
+            let plain = block_on(<$Msg>::tokio_read_unencrypted(&mut r0));
+            #[cfg(all(not(feature = "sync"), not(feature = "tokio"), feature = "async-std"))]
+            let plain = block_on(<$Msg>::astd_read_unencrypted(&mut r0));
+            match plain {
+                Err(_) => String::from(" enc=n/a"),
+                Ok(m) => {
+                    let user = wow_srp::normalized_string::NormalizedString::new("VERIF").unwrap();
+                    let key = [0x21u8; 40];
+                    let server_seed = wow_srp::$srp::ProofSeed::new();
+                    let client_seed = wow_srp::$srp::ProofSeed::new();
+                    let ss = server_seed.seed();
+                    let cs = client_seed.seed();
+                    let (proof, client) = client_seed.into_client_header_crypto(&user, key, ss);
+                    let server = server_seed.into_server_header_crypto(&user, key, proof, cs).expect("proof");
+                    let (mut client_enc, mut client_dec) = client.split();
+                    let (mut server_enc, mut server_dec) = server.split();
+                    let _ = (&mut client_enc, &mut client_dec, &mut server_enc, &mut server_dec);
+                    let (enc, dec) = world_enc!(@halves $writer, client_enc, client_dec, server_enc, server_dec);
+                    let mut v: Vec<u8> = Vec::new();
+                    #[cfg(feature = "sync")]
+                    let wr = m.$we(&mut v, enc);
+                    #[cfg(all(not(feature = "sync"), feature = "tokio"))]
+                    let wr = block_on(m.$twe(&mut v, enc));
+                    #[cfg(all(not(feature = "sync"), not(feature = "tokio"), feature = "async-std"))]
+                    let wr = block_on(m.$awe(&mut v, enc));
+                    if wr.is_err() {
+                        format!(" enc=write-error")
+                    } else {
+                        let mut r = &v[..];
+                        #[cfg(feature = "sync")]
+                        let back = <$Msg>::read_encrypted(&mut r, dec);
+                        #[cfg(all(not(feature = "sync"), feature = "tokio"))]
+                        let back = block_on(<$Msg>::tokio_read_encrypted(&mut r, dec));
+                        #[cfg(all(not(feature = "sync"), not(feature = "tokio"), feature = "async-std"))]
+                        let back = block_on(<$Msg>::astd_read_encrypted(&mut r, dec));
+                        match back {
+                            Ok(b) => format!(" enc=OK len={} left={} same={}", v.len(), r.len(), format!("{:?}", b) == format!("{:?}", m)),
+                            Err(e) => format!(" enc=ERR {}", format!("{:?}", e).split(|c: char| c == '(' || c == '{' || c == ' ').next().unwrap_or("").to_string()),
+                        }
+                    }
+                }
+            }
+        }
+        #[cfg(not(all(feature = "encryption", any(feature = "sync", feature = "tokio", feature = "async-std"))))]
+        {
+            String::new()
+        }
+    }};
+    (@halves client, $ce:ident, $cd:ident, $se:ident, $sd:ident) => {
+        (&mut $ce, &mut $sd)
+    };
+    (@halves server, $ce:ident, $cd:ident, $se:ident, $sd:ident) => {
+        (&mut $se, &mut $cd)
+    };
+}
+
 macro_rules! login {
     ($Msg:ty, $bytes:expr) => {{
         let bytes: &[u8] = $bytes;
@@ -103,17 +171,17 @@ macro_rules! login {
 fn one(ns: &str, dir: &str, bytes: &[u8]) -> String {
     match (ns, dir) {
         #[cfg(feature = "vanilla")]
-        ("vanilla", "server") => world!(wow_world_messages::vanilla::opcodes::ServerOpcodeMessage, write_unencrypted_server, tokio_write_unencrypted_server, astd_write_unencrypted_server, bytes),
+        ("vanilla", "server") => format!("{}{}", world!(wow_world_messages::vanilla::opcodes::ServerOpcodeMessage, write_unencrypted_server, tokio_write_unencrypted_server, astd_write_unencrypted_server, bytes), world_enc!(wow_world_messages::vanilla::opcodes::ServerOpcodeMessage, vanilla_header, server, write_encrypted_server, tokio_write_encrypted_server, astd_write_encrypted_server, bytes)),
         #[cfg(feature = "vanilla")]
-        ("vanilla", "client") => world!(wow_world_messages::vanilla::opcodes::ClientOpcodeMessage, write_unencrypted_client, tokio_write_unencrypted_client, astd_write_unencrypted_client, bytes),
+        ("vanilla", "client") => format!("{}{}", world!(wow_world_messages::vanilla::opcodes::ClientOpcodeMessage, write_unencrypted_client, tokio_write_unencrypted_client, astd_write_unencrypted_client, bytes), world_enc!(wow_world_messages::vanilla::opcodes::ClientOpcodeMessage, vanilla_header, client, write_encrypted_client, tokio_write_encrypted_client, astd_write_encrypted_client, bytes)),
         #[cfg(feature = "tbc")]
-        ("tbc", "server") => world!(wow_world_messages::tbc::opcodes::ServerOpcodeMessage, write_unencrypted_server, tokio_write_unencrypted_server, astd_write_unencrypted_server, bytes),
+        ("tbc", "server") => format!("{}{}", world!(wow_world_messages::tbc::opcodes::ServerOpcodeMessage, write_unencrypted_server, tokio_write_unencrypted_server, astd_write_unencrypted_server, bytes), world_enc!(wow_world_messages::tbc::opcodes::ServerOpcodeMessage, tbc_header, server, write_encrypted_server, tokio_write_encrypted_server, astd_write_encrypted_server, bytes)),
         #[cfg(feature = "tbc")]
-        ("tbc", "client") => world!(wow_world_messages::tbc::opcodes::ClientOpcodeMessage, write_unencrypted_client, tokio_write_unencrypted_client, astd_write_unencrypted_client, bytes),
+        ("tbc", "client") => format!("{}{}", world!(wow_world_messages::tbc::opcodes::ClientOpcodeMessage, write_unencrypted_client, tokio_write_unencrypted_client, astd_write_unencrypted_client, bytes), world_enc!(wow_world_messages::tbc::opcodes::ClientOpcodeMessage, tbc_header, client, write_encrypted_client, tokio_write_encrypted_client, astd_write_encrypted_client, bytes)),
         #[cfg(feature = "wrath")]
-        ("wrath", "server") => world!(wow_world_messages::wrath::opcodes::ServerOpcodeMessage, write_unencrypted_server, tokio_write_unencrypted_server, astd_write_unencrypted_server, bytes),
+        ("wrath", "server") => format!("{}{}", world!(wow_world_messages::wrath::opcodes::ServerOpcodeMessage, write_unencrypted_server, tokio_write_unencrypted_server, astd_write_unencrypted_server, bytes), world_enc!(wow_world_messages::wrath::opcodes::ServerOpcodeMessage, wrath_header, server, write_encrypted_server, tokio_write_encrypted_server, astd_write_encrypted_server, bytes)),
         #[cfg(feature = "wrath")]
-        ("wrath", "client") => world!(wow_world_messages::wrath::opcodes::ClientOpcodeMessage, write_unencrypted_client, tokio_write_unencrypted_client, astd_write_unencrypted_client, bytes),
+        ("wrath", "client") => format!("{}{}", world!(wow_world_messages::wrath::opcodes::ClientOpcodeMessage, write_unencrypted_client, tokio_write_unencrypted_client, astd_write_unencrypted_client, bytes), world_enc!(wow_world_messages::wrath::opcodes::ClientOpcodeMessage, wrath_header, client, write_encrypted_client, tokio_write_encrypted_client, astd_write_encrypted_client, bytes)),
         ("login2", "server") => login!(wow_login_messages::version_2::opcodes::ServerOpcodeMessage, bytes),
         ("login2", "client") => login!(wow_login_messages::version_2::opcodes::ClientOpcodeMessage, bytes),
         ("login3", "server") => login!(wow_login_messages::version_3::opcodes::ServerOpcodeMessage, bytes),
